@@ -257,7 +257,9 @@ Mknod(n, fa) ==
 
 \* create (no O_EXCL): new name -> create_file_excl (descriptor), do_lookup, the descriptor becomes the handle;
 \* existing name -> do_lookup, then open_inode; if that fails the reference just taken is not given back
-Create(n, fa) ==
+\* trunc: O_TRUNC in the flags. With seal_size a truncating create of an existing name is refused (EPERM) BEFORE the name is
+\* looked up, so no reference is taken.
+Create(n, trunc, fa) ==
   /\ (m.dirent[n] = 0 => NewFile(m) # 0)
   /\ LET ex == m.dirent[n] # 0
          b0 == B(fa)
@@ -271,6 +273,7 @@ Create(n, fa) ==
                   IN IF r.st # "OK" THEN [s |-> r.s, st |-> r.st, k |-> 0, h |-> 0]
                      ELSE IF m.cfg.no_open THEN [s |-> r.s, st |-> "OK", k |-> r.k, h |-> 0]
                      ELSE [s |-> NewHandle(r.s, r.k), st |-> "OK", k |-> r.k, h |-> r.s.next_handle]
+           ELSE IF m.cfg.seal /\ trunc THEN [s |-> m, st |-> "EPERM", k |-> 0, h |-> 0]
            ELSE LET r == DoLookup(m, n, b0) IN
                 IF r.st # "OK" THEN [s |-> r.s, st |-> r.st, k |-> 0, h |-> 0]
                 ELSE LET o == OpenInode(r.s, r.k, r.b) IN
@@ -279,7 +282,7 @@ Create(n, fa) ==
                      ELSE [s |-> NewHandle(r.s, r.k), st |-> "OK", k |-> r.k, h |-> r.s.next_handle]
          A0 == N0("create", res.st, fa)
          A1 == IF res.st = "OK" THEN OpenH(Entry(A0, "create", res.s.dirent[n], res.k), "create", res.k, res.h) ELSE A0
-     IN Step(res.s, A1, [op |-> "create", p |-> 1, name |-> n, flags |-> 2, fail_at |-> fa], res.k, res.h)
+     IN Step(res.s, A1, [op |-> "create", p |-> 1, name |-> n, flags |-> IF trunc THEN 514 ELSE 2, fail_at |-> fa], res.k, res.h)
 
 Link(k, n, fa) ==
   LET res ==
@@ -369,6 +372,17 @@ ReadOp(k, h, fa) ==
       st == IF ~m.cfg.no_open THEN (IF hit THEN "OK" ELSE "EBADF") ELSE OpenInode(m, k, B(fa)).st      \* get_data
   IN Step(m, UseH(N0("read", st, fa), "read", k, h, st), [op |-> "read", p |-> Id(seenn, k), h |-> Id(seenh, h), size |-> 8, fail_at |-> fa], 0, 0)
 
+\* write through (k, h); ext: beyond the end of the file. get_data, then (seal_size) the size check refuses an extending
+\* write with EPERM; the handle and its descriptor are untouched either way
+WriteOp(k, h, ext, fa) ==
+  LET hit == h \in DOMAIN m.handles /\ m.handles[h].inode = k
+      pre == IF ~m.cfg.no_open THEN (IF hit THEN "OK" ELSE "EBADF") ELSE OpenInode(m, k, B(fa)).st
+      isdir == IF m.cfg.no_open THEN k \in DOMAIN m.data /\ m.data[k].file = 1 ELSE hit /\ m.handles[h].file = 1
+      st == IF pre = "OK" /\ isdir THEN (IF m.cfg.no_open THEN "EISDIR" ELSE "EBADF")     \* the host refuses writes on directories
+            ELSE IF pre = "OK" /\ m.cfg.seal /\ ext THEN "EPERM" ELSE pre
+  IN Step(m, UseH(N0("write", st, fa), "write", k, h, st),
+          [op |-> "write", p |-> Id(seenn, k), h |-> Id(seenh, h), off |-> IF ext THEN "5000" ELSE "0", fail_at |-> fa], 0, 0)
+
 DestroyOp(fa) ==
   LET s0 == [m EXCEPT !.handles = <<>>, !.cookies = <<>>, !.data = <<>>, !.by_id = <<>>, !.by_handle = <<>>]
       r == Import(s0, B(fa))
@@ -411,14 +425,16 @@ Next ==
   /\ Len(hist) < MaxLen
   /\ IF ~a.up THEN \E fa \in Fails : InitOp(fa)
      ELSE IF MODE = "refs" THEN
-          \/ \E n \in Names : Lookup(n, -1) \/ Mknod(n, -1) \/ Create(n, -1) \/ Unlink(n)
+          \/ \E n \in Names : Lookup(n, -1) \/ Mknod(n, -1) \/ Unlink(n)
+          \/ \E n \in Names, tr \in (IF m.cfg.seal THEN BOOLEAN ELSE {FALSE}) : Create(n, tr, -1)
           \/ \E n \in Names, k \in Nums : Link(k, n, -1)
           \/ \E n1, n2 \in Names : Rename(n1, n2)
           \/ \E k \in Nums, c \in Counts : ForgetOp(k, c)
           \/ \E k1, k2 \in Nums : k1 < k2 /\ BatchForget(k1, 1, k2, 2)
           \/ \E t \in 0..2, plus \in BOOLEAN : ReaddirRoot(0, t, plus, -1)
      ELSE IF MODE = "res" THEN
-          \/ \E n \in Names, fa \in Fails : Lookup(n, fa) \/ Create(n, fa)
+          \/ \E n \in Names, fa \in Fails : Lookup(n, fa) \/ Create(n, m.cfg.seal, fa)
+          \/ \E k \in Nums, h \in Hs, ext \in BOOLEAN : WriteOp(k, h, ext, -1)
           \/ \E k \in Nums, fa \in Fails : OpenOp(k, FALSE, fa) \/ OpenOp(k, TRUE, fa)
           \/ \E k \in Nums, h \in Hs : ReleaseOp(k, h, FALSE) \/ ReleaseOp(k, h, TRUE) \/ \E fa \in Fails : ReadOp(k, h, fa)
           \/ \E h \in Hs, fa \in Fails : ReaddirRoot(h, 1, TRUE, fa)
@@ -443,12 +459,12 @@ NoViol == a.viol \subseteq Allowed
 NoViolStrict == a.viol = {}
 \* the client-visible state is what A says: a number resolves iff its count is positive (no ghosts) -- a direct
 \* statement of C08 over the model, independent of the probes
-Resolves == \A k \in Range(seenn) : (a.up /\ k \notin a.ghost /\ a.viol = {}) => ((k \in DOMAIN m.data) <=> Valid(a, k))
+Resolves == \A k \in Range(seenn) : (a.up /\ k \notin a.taint /\ a.viol = {}) => ((k \in DOMAIN m.data) <=> Valid(a, k))
 \* terminal states export their scenario (sampled); evaluated as a state constraint so that it runs once per state
 Export ==
   IF Len(hist) = MaxLen /\ TLCGet("distinct") % Sample = 0
   THEN PrintT(<<"REPLAY", ToJson([fh |-> m.cfg.fh, hostino |-> m.cfg.hostino, no_open |-> m.cfg.no_open, no_opendir |-> m.cfg.no_opendir,
-                                  via |-> m.cfg.via, special |-> SPECIAL_A, names |-> [i \in DOMAIN NonDots(m.raw) |-> NonDots(m.raw)[i][1]],
+                                  via |-> m.cfg.via, seal |-> m.cfg.seal, special |-> SPECIAL_A, names |-> [i \in DOMAIN NonDots(m.raw) |-> NonDots(m.raw)[i][1]],
                                   viol |-> a.viol, ops |-> hist])>>)
   ELSE TRUE
 =============================================================================
